@@ -726,6 +726,8 @@ def join_pmappings(
         # =============================================================================
         n_procs = get_n_parallel_jobs()
         n_groups = sum(len(v) for v in left.values())
+        split_from: dict[int, int] = {}  # id(part of a split group) -> id(original group)
+        split_groups = []  # Keeps the original groups alive so that their ids stay unique
         for _ in range(n_procs - n_groups):
             best_k, best_i, best_len = None, None, -1
             for k, vs in left.items():
@@ -738,8 +740,13 @@ def join_pmappings(
                 break  # nothing left worth splitting
             pg, perm = left[best_k][best_i]
             first, second = pg.split_in_half()
+            # Keep the parts of a group adjacent and remember where they came from, so that
+            # the merged rows come out in the same order as without splitting. The row
+            # order breaks ties between equal mappings.
+            split_from[id(first)] = split_from[id(second)] = split_from.get(id(pg), id(pg))
+            split_groups.append(pg)
             left[best_k][best_i] = (first, perm)
-            left[best_k].append((second, perm))
+            left[best_k].insert(best_i + 1, (second, perm))
 
         # ======================================================================
         # Remove dead tensors from left and right. This happens after grouping because
@@ -758,14 +765,23 @@ def join_pmappings(
         # ======================================================================
         combined: list[PmappingGroup] = []
         combined_ids: set[tuple[int, int, tuple[tuple[int, int], ...]]] = oset()
+        merged_from: dict[int, tuple[int, int]] = {}  # id(merged group) -> (left, right)
 
         for k in left:
             found = False
             if DO_PRINT:
                 print(f"Left key {k}")
-            for (a, perm_a), (b, perm_b) in itertools.product(
-                left[k], right.get(k, [])
-            ):
+            # Left-major order, with the parts of a split group taken together
+            pairs = [
+                (a_perm_a, b_perm_b)
+                for _, parts in itertools.groupby(
+                    left[k], key=lambda x: split_from.get(id(x[0]), id(x[0]))
+                )
+                for b_perm_b, a_perm_a in itertools.product(
+                    right.get(k, []), list(parts)
+                )
+            ]
+            for (a, perm_a), (b, perm_b) in pairs:
                 a: PmappingGroup
                 b: PmappingGroup
                 perm_a: CompatibilityDiff
@@ -807,6 +823,11 @@ def join_pmappings(
                         _pmapping_row_filter_function=_pmapping_row_filter_function,
                         ignored_resources=ignored_resources,
                     )
+                )
+
+                merged_from[id(combined[-1])] = (
+                    split_from.get(id(a), id(a)),
+                    id(b),
                 )
 
                 if DO_PRINT:
@@ -929,6 +950,20 @@ def join_pmappings(
             )
             for c, mapping in zip(combined, mappings):
                 c.mappings = mapping
+
+        # If groups were split to fan the merging out, put the parts back together, so
+        # that the result (its groups, their order and which of several equal mappings
+        # survives) does not depend on the number of workers
+        if split_from:
+            combined = [
+                parts[0] if len(parts) == 1 else PmappingGroup.concat(parts)
+                for parts in (
+                    list(g)
+                    for _, g in itertools.groupby(
+                        combined, key=lambda c: merged_from[id(c)]
+                    )
+                )
+            ]
         timer.print_time("Pmapping merging")
 
         if not any(len(s.mappings.data) for s in combined):
